@@ -25,7 +25,9 @@ Verdict(r, ln) ==
 
 \* conformance: layer 1 predicts exactly the components whose instance changed, among those
 \* that exist before or after
-Conforms(r) == SetOf(r.recreated) = CloseSet(SetOf(r.params)) \cap (SetOf(r.present) \cup SetOf(r.presentLive) \cup SetOf(r.recreated))
+\* (the record cleaner's predicate depends on the CONTENT of the path configurations, which the
+\*  extracted table cannot express: experiments that change the paths are not compared)
+Conforms(r) == "paths" \in SetOf(r.params) \/ SetOf(r.recreated) = CloseSet(SetOf(r.params)) \cap (SetOf(r.present) \cup SetOf(r.presentLive) \cup SetOf(r.recreated))
 
 Verdicts == l >= 1 => Verdict(Trace[l], l)
 Drift == l >= 1 => (Conforms(Trace[l]) \/ Emit("DRIFT", [l |-> l, params |-> Trace[l].params]))
